@@ -4,7 +4,7 @@ from __future__ import annotations
 
 from dataclasses import dataclass
 
-from .model import AnalysisError, FunctionInfo
+from .model import ClassInfo, AnalysisError, FunctionInfo
 from .report import Cx, Ob
 from .summ import Ctx, Ev, Summary, describe_path
 from .terms import NONE, callee_name, concat_parts, is_const, op, receiver, show, subterms
@@ -60,6 +60,23 @@ class Prov:
                 else:
                     self.add_binding(x, it, path + (i,))
         self.scan(it)
+
+    def partial(self, t, depth: int = 0):
+        """A bound variable that ranges over a proper SLICE of its source (``xs[n:]``, ``xs[:k]``):
+        it does not cover the source.  Returns the slice term or None."""
+        if depth > 4 or op(t) != "bv" or t[1] not in self.binders:
+            return None
+        it, _ = self.binders[t[1]]
+        seen = 0
+        while op(it) == "call" and op(it[1]) == "builtin" and it[1][1] in ("sorted", "list", "tuple", "reversed", "iter") and it[2] and seen < 4:
+            it = it[2][0]
+            seen += 1
+        if op(it) == "slice":
+            lo, hi, st = it[2], it[3], it[4]
+            full = (is_const(lo, None) or is_const(lo, 0)) and is_const(hi, None) and (is_const(st, None) or is_const(st, 1))
+            if not full:
+                return it
+        return None
 
     # -- alternatives a value may equal ------------------------------------------------
     def vals(self, t, depth: int = 0) -> list:
@@ -198,6 +215,11 @@ def _value_field(prov: Prov, v) -> str | None:
     return None
 
 
+def _partial_cond(prov, key) -> tuple:
+    sl = prov.partial(key) if prov is not None else None
+    return ((("partial", sl), True),) if sl is not None else ()
+
+
 def _conds(ctx: Ctx, s: Summary | None = None, ev: Ev | None = None) -> tuple:
     if s is not None and ev is not None:
         return s.must_guards(ev)
@@ -233,7 +255,7 @@ def dict_builder_entries(cx: Cx, fn: FunctionInfo, table: str, ob_id: str) -> li
                     kf = prov.fields(k)
                     rec = prov.record_of(k)
                     out.append(
-                        Entry(table, frozenset(f for r, f in kf if r != "?"), any(r == "?" for r, _ in kf), v, _value_field(prov, v), _conds(ectx, s, ev), where(fn, ev.line), fn.qualname, ev.line, rec)
+                        Entry(table, frozenset(f for r, f in kf if r != "?"), any(r == "?" for r, _ in kf), v, _value_field(prov, v), _conds(ectx, s, ev) + _partial_cond(prov, k), where(fn, ev.line), fn.qualname, ev.line, rec)
                     )
                 elif (fk := _fromkeys_update(ev, t)) is not None:
                     keys, v = fk
@@ -364,7 +386,7 @@ def index_method_entries(cx: Cx, fn: FunctionInfo, ob_id: str) -> dict[str, list
             table = tgt[1][2]
             kf = prov.fields(tgt[2])
             out.setdefault(table, []).append(
-                Entry(table, frozenset(f for r, f in kf if r != "?"), any(r == "?" for r, _ in kf), ev.b, _value_field(prov, ev.b), _conds(ctx, s, ev), where(fn, ev.line), fn.qualname, ev.line, prov.record_of(tgt[2]))
+                Entry(table, frozenset(f for r, f in kf if r != "?"), any(r == "?" for r, _ in kf), ev.b, _value_field(prov, ev.b), _conds(ctx, s, ev) + _partial_cond(prov, tgt[2]), where(fn, ev.line), fn.qualname, ev.line, prov.record_of(tgt[2]))
             )
     for ev, ctx in s.distinct_events("expr"):
         c = ev.a
@@ -1147,3 +1169,158 @@ def open_args_agreement(cx: Cx, ob: Ob, writers: list, readers: list, what: str)
                 f"{what}: files are written with {k}={sorted(wv)} but read with {k}={sorted(rv)}: non-ASCII content does not read back as written wherever the locale's default differs",
                 detail=f"open-{k}",
             )
+
+
+STR_ALTERING_CONFIG = {"str_strip_whitespace", "str_to_lower", "str_to_upper", "str_max_length", "str_min_length", "coerce_numbers_to_str"}
+STR_ALTERING_CONSTRAINTS = {"strip_whitespace", "to_lower", "to_upper", "max_length", "min_length", "pattern"}
+
+
+def record_verbatim(cx: Cx, ob: Ob, class_q: str = "curies.api.Record") -> None:
+    """The record model stores every string exactly as given (no pydantic string transformation / constraint)."""
+    import ast
+
+    ci = cx.model.cls(class_q, ob.id)
+    chain = [ci] + [b for b in cx.model.bases(ci) if isinstance(b, ClassInfo)]
+    for c in chain:
+        cfg = c.assigns.get("model_config")
+        where_ = f"src/curies/{c.module.relpath}:{(cfg or c.node).lineno}"
+        ob.site(f"{where_} {c.qualname}", f"model_config = {ast.unparse(cfg) if cfg is not None else '(default)'}")
+        items = []
+        if isinstance(cfg, ast.Call):
+            items = [(k.arg, k.value) for k in cfg.keywords]
+        elif isinstance(cfg, ast.Dict):
+            items = [(k.value if isinstance(k, ast.Constant) else None, v) for k, v in zip(cfg.keys, cfg.values)]
+        for k, v in items:
+            if k in STR_ALTERING_CONFIG and not (isinstance(v, ast.Constant) and v.value in (False, None)):
+                ob.violate(
+                    c.qualname,
+                    where_,
+                    f"{c.name}.model_config sets {k}: prefixes and URI prefixes are altered when a record is built, so the converter no longer contains what its input lists (two inputs that differ only by surrounding whitespace or case collapse into a clash, listed pairs stop expanding / compressing)",
+                    witness="Record(prefix='go ', uri_prefix='u ') stores 'go' / 'u': expand('go :1') is None although the pair was listed",
+                    detail=f"config:{k}",
+                )
+        for name, (ann, val) in c.fields.items():
+            for node in [n for n in (ann, val) if n is not None]:
+                for call in [x for x in ast.walk(node) if isinstance(x, ast.Call)]:
+                    fname = ast.unparse(call.func).rsplit(".", 1)[-1]
+                    if fname in ("constr", "StringConstraints", "Field"):
+                        for kw in call.keywords:
+                            if kw.arg in STR_ALTERING_CONSTRAINTS and not (isinstance(kw.value, ast.Constant) and kw.value.value in (False, None)) and name in (CANON | LISTS):
+                                ob.violate(c.qualname, f"src/curies/{c.module.relpath}:{call.lineno}", f"{c.name}.{name} is declared with {fname}({kw.arg}=...): the string is altered or rejected when the record is built", detail=f"constraint:{name}:{kw.arg}")
+
+
+IO_CALLS = {"open", "read_text", "read_bytes", "urlopen", "json.load", "urllib.request.urlopen", "requests.get"}
+
+
+def memoised_io(cx: Cx, ob: Ob, roots: list[str]) -> None:
+    """No function reachable from ``roots`` that (transitively) reads a file or the network is memoised:
+    the same location must be read again after it was rewritten."""
+    seen: set = set()
+    todo = [q for q in roots if q in cx.model.functions]
+    reach = []
+    while todo:
+        q = todo.pop()
+        if q in seen or len(seen) > 200:
+            continue
+        seen.add(q)
+        fn = cx.model.functions[q]
+        reach.append(fn)
+        s = cx.summary(fn)
+        for t, _, _ in s.all_terms():
+            for x in subterms(t):
+                if op(x) == "func" and x[1] in cx.model.functions:
+                    todo.append(x[1])
+                if op(x) == "call" and op(x[1]) == "attr" and op(x[1][1]) == "param" and fn.cls is not None and x[1][1][1] in (fn.self_name, "cls"):
+                    m2 = cx.model.find_method(fn.cls, x[1][2])
+                    if m2 is not None:
+                        todo.append(m2.qualname)
+
+    def does_io(fn, depth=0) -> bool:
+        s = cx.summary(fn)
+        for t, _, _ in s.all_terms():
+            for x in subterms(t):
+                if op(x) == "call":
+                    n = callee_name(x)
+                    full = x[1][1] if op(x[1]) in ("ext", "builtin") else n
+                    if n in IO_CALLS or full in IO_CALLS:
+                        return True
+                    if depth < 3 and op(x[1]) == "func" and x[1][1] in cx.model.functions and does_io(cx.model.functions[x[1][1]], depth + 1):
+                        return True
+        return False
+
+    for fn in reach:
+        ob.site(f"{fn.where} {fn.qualname}", "reachable from the loaders")
+        if fn.is_cached_property or any("cache" in d for d in fn.decorators):
+            if does_io(fn):
+                ob.violate(
+                    fn.qualname,
+                    fn.where,
+                    f"{fn.name} is memoised ({', '.join(d for d in fn.decorators if 'cache' in d)}) and reads a file or URL: after the location is rewritten a second load returns the first content",
+                    witness="write A; load; write B to the same path; load again -> still A",
+                    detail="memoised-io",
+                )
+
+
+def constructor_owns_records(cx: Cx, ob: Ob) -> None:
+    """Converter.__init__ reads its (possibly one-shot) `records` argument exactly through one
+    materialising call and keeps a list of its own (never the caller's list, never sorted in place)."""
+    from .terms import is_const, show
+
+    init = cx.fn(f"{CONV}.__init__", ob.id)
+    s = cx.summary(init, ob.id)
+    rp = ("param", init.params[1].name)
+    me = ("param", init.self_name)
+    MATERIALISE = (("builtin", "sorted"), ("builtin", "list"), ("builtin", "tuple"))
+    raw_uses: list = []
+
+    def visit(t, parent, ev):
+        if t == rp:
+            ok = False
+            if parent is not None and op(parent) == "call":
+                if parent[1] in MATERIALISE and parent[2][:1] == (rp,):
+                    ok = True
+                if parent[1] == ("builtin", "isinstance") and parent[2][:1] == (rp,):
+                    ok = True
+            if parent is not None and op(parent) == "cmp" and is_const(parent[3], None):
+                ok = True
+            if not ok:
+                raw_uses.append((parent, ev))
+            return
+        if isinstance(t, tuple):
+            for x in t:
+                if isinstance(x, tuple):
+                    visit(x, t if t and isinstance(t[0], str) else parent, ev)
+
+    for t, ev, ctx in s.all_terms():
+        visit(t, None, ev)
+    ob.site(f"{init.where} {init.qualname}", f"uses of `{rp[1]}`")
+    seen = set()
+    for parent, ev in raw_uses:
+        key = (ev.line, show(parent)[:40] if parent else "")
+        if key in seen:
+            continue
+        seen.add(key)
+        if parent is not None and op(parent) == "attr" and parent[2] in MUTATORS:
+            ob.violate(init.qualname, where(init, ev.line), f"Converter.__init__ calls .{parent[2]}() on the caller's `{rp[1]}`: the argument is changed in place", detail=f"mutates-argument:{parent[2]}")
+        elif ev.kind == "store" and ev.a == ("attr", me, "records") and ev.b == rp:
+            ob.violate(
+                init.qualname,
+                where(init, ev.line),
+                f"Converter.__init__ keeps the caller's own list as self.records: a second converter built from the same list (or Converter(other.records)) shares it, so add_record on one makes the other list records its lookup tables do not know",
+                witness="work = Converter(base.records); work.add_prefix('x', 'u'): base.records contains x but base.expand('x:1') is None",
+                detail="keeps-callers-list",
+            )
+        else:
+            ob.violate(
+                init.qualname,
+                where(init, ev.line),
+                f"Converter.__init__ uses its `{rp[1]}` argument directly (`{show(parent)[:60] if parent else rp[1]}`) instead of the list it materialises: the argument is declared Iterable, and a generator is exhausted by the first use - the converter is then silently built from nothing",
+                witness="Converter(r for r in records): the duplicate check consumes the generator, the converter is empty and compress returns None for everything",
+                detail="raw-argument-use",
+            )
+    stored = [ev.b for ev, _ in s.distinct_events("store") if ev.a == ("attr", me, "records")]
+    for v in stored:
+        ob.site(f"{init.where} {init.qualname}", f"self.records = {show(v)[:60]}")
+        fresh = (op(v) == "call" and v[1] in MATERIALISE) or op(v) in ("comp", "list", "new")
+        if not fresh and v != rp:
+            ob.undecide(f"self.records is assigned `{show(v)[:60]}`: not recognisably a fresh list")
